@@ -73,11 +73,18 @@ class Violation:
         return {'key': self.key, 'case': jsonable(self.case), 'detail': jsonable(self.detail)}
 
 
+class _Counters(dict):
+    '''A counter never incremented reads as 0 (coverage summaries of runs cut short by
+    violations), but .get() and `in` still tell the difference for the coverage guards.'''
+    def __missing__(self, key):
+        return 0
+
+
 class Result:
     '''Mergeable accumulator returned by worker tasks.'''
 
     def __init__(self):
-        self.counters = {}
+        self.counters = _Counters()
         self.violations = []        # list of Violation (capped per key)
         self.violation_count = 0
         self.by_key = {}
@@ -213,6 +220,19 @@ def write_evidence(prop, tier, seed, level, coverage, assumptions, wall_s, viola
     return path
 
 
+def vacuous(prop, result, msg):
+    '''A coverage guard failed.  With no violation in hand that makes the run worthless (broken
+    harness, exit 2).  When violations WERE found the tree under test misbehaves, which is the
+    usual reason for parts of the space not being reached: the violations are concrete,
+    replayable cases and are what gets reported; the gap is noted in the evidence.'''
+    known = {k['key'] for k in load_known_findings()
+             if k['property'] == prop and k['status'] == 'known'}
+    if any(key not in known for key in result.by_key):
+        result.notes.append('coverage guard failed next to violations: ' + msg[:300])
+        return
+    raise Broken(msg)
+
+
 def finish(prop, tier, seed, level, result, coverage, assumptions, started):
     '''Report violations / known findings, write evidence, return the exit code.'''
     known = [k for k in load_known_findings() if k['property'] == prop and k['status'] == 'known']
@@ -242,7 +262,9 @@ def finish(prop, tier, seed, level, result, coverage, assumptions, started):
         shown += 1
     coverage = dict(coverage)
     if not result.samples and not coverage.get('samples'):
-        raise Broken('the run recorded no sample case for its evidence')
+        if not new:
+            raise Broken('the run recorded no sample case for its evidence')
+        result.samples.append({'violating_case': jsonable(new[0].case)})
     coverage.setdefault('counters', dict(sorted(result.counters.items())))
     coverage.setdefault('samples', result.samples[:4])
     coverage['violations_by_key'] = dict(sorted(result.by_key.items()))
